@@ -84,7 +84,34 @@ class Ctx:
 DEFAULT = Ctx()
 
 
+def _exact(op, x, y, r):
+    """is the IEEE result r of x op y exact over the reals?"""
+    from fractions import Fraction
+    if r != r or abs(r) == float("inf") or x != x or y != y or abs(x) == float("inf") or abs(y) == float("inf"):
+        return True
+    fx, fy = Fraction(x), Fraction(y)
+    if op == "add":
+        return fx + fy == Fraction(r)
+    if op == "sub":
+        return fx - fy == Fraction(r)
+    if op == "mul":
+        return fx * fy == Fraction(r)
+    if op == "div":
+        return fy != 0 and fx / fy == Fraction(r)
+    return False
+
+
 def _fold2(op, a, b):
+    x, y = litval(a), litval(b)
+    r0 = _fold2_raw(op, a, b)
+    if not _exact(op, x, y, litval(r0)):
+        # keep inexact literal arithmetic symbolic: residuals denote real-number expressions and
+        # a folded literal would bake one rounding into them
+        return (op, a, b)
+    return r0
+
+
+def _fold2_raw(op, a, b):
     x, y = litval(a), litval(b)
     try:
         if op == "add":
